@@ -457,6 +457,65 @@ def substituted_forward(ctx, g):
     return n
 
 
+class SchurOp(LinearOperator):
+    """A - B C^-1 B^T where the product itself calls xitorch.linalg.solve on an inner operator (a functional nested in an operator)"""
+
+    def __init__(self, A, B, C):
+        super().__init__(shape=A.shape, is_hermitian=True, dtype=A.dtype, device=A.device)
+        self.A, self.B = A, B
+        self.Cop = LinearOperator.m(C, is_hermitian=True)
+
+    def _mv(self, x):
+        y = xitorch.linalg.solve(self.Cop, self.B.T @ x.unsqueeze(-1), method="cg", rtol=1e-13, atol=1e-15)
+        return (self.A @ x.unsqueeze(-1) - self.B @ y).squeeze(-1)
+
+    def _getparamnames(self, prefix=""):
+        return [prefix + "A", prefix + "B"] + self.Cop._getparamnames(prefix=prefix + "Cop.")
+
+
+def nested_operator(ctx, g):
+    n = 0
+    for fm, bm in (("cg", None), ("custom_exactsolve", None), ("bicgstab", "cg")):
+        for cg_ in (False, True):
+            n += 1
+            ctx.case(key=("nested-operator", fm, bm, cg_))
+            why = None
+            try:
+                A0 = make_matrix("spd", 4, (), DT, g)[0].clone().requires_grad_()
+                C0 = make_matrix("spd", 3, (), DT, g)[0].clone().requires_grad_()
+                B0 = (torch.randn(4, 3, generator=g, dtype=DT) * 0.2).requires_grad_()
+                rhs = torch.randn(4, 2, generator=g, dtype=DT)
+                with warnings.catch_warnings():
+                    warnings.simplefilter("ignore")
+                    op = SchurOp(sym2(A0), B0, sym2(C0))
+                    kw = fwd_opts(fm)
+                    kw["bck_options"] = dict(fwd_opts(bm), method=bm) if bm is not None else (fwd_opts(fm) if fm != "custom_exactsolve" else {})
+                    X = xitorch.linalg.solve(op, rhs, method=fm, **kw)
+                    g1 = torch.autograd.grad((X ** 2).sum(), [A0, B0, C0], create_graph=cg_, retain_graph=True)
+                    A1, B1, C1 = (t_.detach().clone().requires_grad_() for t_ in (A0, B0, C0))
+                    Xr = torch.linalg.solve(sym2(A1) - B1 @ torch.linalg.solve(sym2(C1), B1.T), rhs)
+                    r1 = torch.autograd.grad((Xr ** 2).sum(), [A1, B1, C1], create_graph=cg_)
+                if not torch.allclose(X, Xr, atol=1e-8, rtol=1e-8):
+                    why = "solution differs from the dense Schur complement solve by %.2e" % float((X - Xr).abs().max())
+                for nm, a, b in zip(("A", "B", "C"), g1, r1):
+                    if why is None and not torch.allclose(sym2(a) if nm != "B" else a, sym2(b) if nm != "B" else b, atol=1e-7, rtol=1e-6):
+                        why = "gradient w.r.t. %s differs from the dense reference by %.2e" % (nm, float((a - b).abs().max()))
+                if why is None and cg_:
+                    h1 = torch.autograd.grad(sum((a ** 2).sum() for a in g1), [A0, B0, C0], allow_unused=True)
+                    h2 = torch.autograd.grad(sum((b ** 2).sum() for b in r1), [A1, B1, C1], allow_unused=True)
+                    for nm, a, b in zip(("A", "B", "C"), h1, h2):
+                        a = torch.zeros_like(b) if a is None else a
+                        if not torch.allclose(sym2(a) if nm != "B" else a, sym2(b) if nm != "B" else b, atol=1e-5, rtol=1e-5):
+                            why = "second-order gradient w.r.t. %s differs from the dense reference by %.2e" % (nm, float((a - b).abs().max()))
+                            break
+            except Exception as ex_:
+                why = "raised %s: %s" % (type(ex_).__name__, str(ex_)[:160])
+            if why:
+                ctx.violation("solvegrad/nested-operator", "solve(%s, backward %s) on an operator whose product calls solve on an inner operator (backward %s graph recording): %s"
+                              % (fm, bm or "default", "with" if cg_ else "without", why), {"fm": fm, "bm": bm, "cg": cg_})
+    return n
+
+
 def run(ctx):
     thorough = ctx.tier == "thorough"
     rng = random.Random(ctx.seed)
@@ -466,6 +525,7 @@ def run(ctx):
     nt = table(ctx, thorough, g)
     nt += composed_table(ctx, g)
     nt += substituted_forward(ctx, g)
+    nt += nested_operator(ctx, g)
     with warnings.catch_warnings():
         warnings.simplefilter("ignore")
         npb = probe_backward(ctx, g)
